@@ -498,11 +498,17 @@ where
 
         self.pool_size = new_pool_size;
         if is_growing {
-            for _ in 0..new_pool_size {
-                if self.queue.peek().is_none() {
+            // flush the backlog for as long as it makes progress: routing only `new_pool_size`
+            // jobs could leave older jobs of a key in the queue behind newer ones
+            loop {
+                let backlog = self.queue.len();
+                if backlog == 0 {
                     break;
                 }
                 self.try_route_next_active_job(None)?;
+                if self.queue.len() >= backlog {
+                    break;
+                }
             }
         }
         Ok(())
